@@ -3,7 +3,7 @@ from props.fsmlib import *
 
 def cases(tier):
     L = []
-    fams = ['f5', 'f10', 'foroot_small'] if tier == 'quick' else THOROUGH
+    fams = ['f5', 'f10', 'foroot_small', 'fw5', 'foo'] if tier == 'quick' else THOROUGH + ['fw5', 'foo']
     T = 1 if tier == 'quick' else 3
     for fam in fams:
         small = fam.endswith('_small'); fam = fam.replace('_small', '')
